@@ -17,7 +17,7 @@ EXPLANATION = (
     "builder and path-extension detection."
     " (R5) configuration plumbing: every field of every workspace `Builder` struct is read by some function other than a derived trait impl, so an option stored by a setter (e.g. the reference sequence repository of the generic alignment reader) cannot be silently ignored."
     " (R6) VCF -> BCF keeps the keys: the header text order of INFO / FILTER / FORMAT equals the order StringMaps::try_from numbers the dictionary in (shared with C10.R10)."
-    " (R7) detection window: no builder of the generic readers constructs its detection BufReader with a constant capacity below the default 8 KiB at which known finding F6 was triaged.")
+    " (R7) detection window: no builder of the generic readers constructs its detection BufReader with a constant capacity below the default 8 KiB at which known finding F6 was triaged. (R8) dispatch agreement: every arm of a noodles-util wrapper's trait method forwards to the same-named method.")
 ASSUMPTIONS = ["the inner enum variant names (Bam/BamRaw/SamGz/...) identify (format, compression) — checked against the constructor each arm calls"]
 NOT_DECIDED = ["record preservation across conversions at the SAM/VCF data-model level", "detection from a path extension vs content"]
 
